@@ -1054,7 +1054,11 @@ struct Digit {
     static void formatStringNumberFixed(Stream_T &stream, const SizeT started_at, const SizeT32 precision,
                                         const SizeT32 calculated_digits, const SizeT32 fraction_length,
                                         const bool round_up) {
-        using Char_T              = typename Stream_T::CharType;
+        using Char_T = typename Stream_T::CharType;
+
+        // Rounding up may carry into a new leading digit, which is written at [Length()]: make room for it.
+        stream.Expect(SizeT{1});
+
         Char_T     *storage       = stream.Storage();
         const SizeT number_length = (stream.Length() - started_at);
         SizeT       index         = started_at;
